@@ -107,11 +107,11 @@ def shrink(case):
             for k in range(len(acts[j][1])):
                 a2 = list(acts)
                 a2[j] = ["hist", acts[j][1][:k] + acts[j][1][k + 1 :]]
-                yield dict(case, fns=[dict(case["fns"][0], acts=a2)])
+                yield dict(case, fns=[dict(case["fns"][0], acts=a2)] + case["fns"][1:])
         if acts[j][0] == "hist":
             a2 = list(acts)
             a2[j] = ["out", 0]
-            yield dict(case, fns=[dict(case["fns"][0], acts=a2)])
+            yield dict(case, fns=[dict(case["fns"][0], acts=a2)] + case["fns"][1:])
 
 
 def rand_ret(rnd):
@@ -151,6 +151,22 @@ def generate(rnd, tier, scale):
             sources.append(s)
         nacts = rnd.choice([2, 3, 4, 5, 7])
         acts = [rand_ret(rnd) for _ in range(nacts)]
+        if via in ("hforeach", "pforeach") and rnd.random() < 0.35:
+            # a dependent term that itself evaluates H.foreach / P.foreach (a plain nested call: the inner result is
+            # the inner mixture, whatever the nesting depth); in the model: the same program under the limit -1
+            inner = [rand_ret(rnd) for _ in range(rnd.choice([2, 3]))]
+            sub = rnd.sample(range(ns), rnd.randint(1, ns))
+            for j in rnd.sample(range(nacts), rnd.randint(1, nacts)):
+                acts[j] = ["rec1", 1, 1, None, rnd.randint(0, 2)]
+            yield dict(
+                k="prog",
+                via=via,
+                sources=sources,
+                srclists=[{"srcs": list(range(ns)), "nkw": ns}, {"srcs": sub, "nkw": len(sub)}],
+                fns=[{"sentinel": [["i:0", 1]], "shape": 0, "acts": acts}, {"sentinel": [["i:0", 1]], "shape": 1, "acts": inner}],
+                calls=[[0, 0, ["i", -1]]],
+            )
+            continue
         yield dict(
             k="prog",
             via=via,
